@@ -99,4 +99,38 @@ def canonVal (ty : FTy) (key : Key) (v : PyVal) : Option (List Scalar) :=
   | .arr _ vk n, v => canonArr vk n key v
   | _, _ => none
 
+/-! ### the validation switch over a whole program run
+
+An observation of one executed assignment: where in the program text it stands (`depth` = number of enclosing
+`with disable_message_validation(ignore=False)` blocks - lexical, the harness knows it from the program it walks), the
+whole message before and after, whether it raised, what was read back.  **Validation is in force whenever execution is
+not inside an explicit disable block**: every observation with `depth = 0` must satisfy the three clauses of C09 - no
+matter how many blocks were entered and left before (normally or by exception) and no matter which bound object the
+assignment went through - and at the end of the program the switch is on. -/
+structure ProgObs where
+  depth : Nat
+  loc : Loc
+  key : Key
+  val : PyVal
+  pre : Bytes
+  post : Bytes
+  raised : Bool
+  rb : List Scalar
+  deriving Repr
+
+def fieldOf (msg : Bytes) (l : Loc) : Bytes := (msg.drop l.off).take l.ty.size
+
+def ProgObs.toObs (o : ProgObs) : Obs :=
+  { pre := fieldOf o.pre o.loc, post := fieldOf o.post o.loc, raised := o.raised,
+    outsideChanged := o.pre.take o.loc.off != o.post.take o.loc.off ||
+                      o.pre.drop (o.loc.off + o.loc.ty.size) != o.post.drop (o.loc.off + o.loc.ty.size) ||
+                      o.pre.length != o.post.length,
+    rb := o.rb }
+
+def progClauses (o : ProgObs) : List (String × Bool) :=
+  if o.depth = 0 then clauses o.loc.ty o.key o.val o.toObs else []
+
+def progOk (obs : List ProgObs) (finalFlag : Bool) : Bool :=
+  finalFlag && obs.all fun o => (progClauses o).all (·.2)
+
 end Pyrtma.Validators
